@@ -194,6 +194,9 @@ type c07Gate struct {
 	CloseAt int      `json:"close_at"` // close the observer after this many reports (-1 = never)
 	// kind of each event (cyclic; empty = all mutations): mut del exp, cc cd cf sc sd cm (system events), adv (seqno advanced)
 	Kinds []string `json:"kinds,omitempty"`
+	// Catchup > 0: the stream was reopened after a server rollback: the observer drops document events at or below this
+	// position (already checkpointed) - the first event above it ends the catch-up and waits at the gate like any other
+	Catchup uint64 `json:"catchup,omitempty"`
 }
 
 // seqno of any event the observer hands to the stream (document, system, seqno-advanced)
@@ -245,6 +248,18 @@ func c07ExecGate(sc c07Gate) (string, map[string]bool) {
 		}
 	}, func(models.DcpStreamEndContext) {}, map[uint32]string{}, tracing.NewTracerComponent())
 	obs.SetVbUUID(1)
+	if sc.Catchup > 0 {
+		obs.SetCatchup(gocbcore.SeqNo(sc.Catchup))
+		labels["catchup_after_rollback"] = true
+	}
+	kindOf := func(i int) string {
+		if len(sc.Kinds) > 0 {
+			return sc.Kinds[i%len(sc.Kinds)]
+		}
+		return "mut"
+	}
+	// an event is handed to the listener unless the catch-up drops it (seqno-advanced is a control event: never dropped)
+	forwarded := func(i int) bool { return sc.Catchup == 0 || sc.Events[i] > sc.Catchup || kindOf(i) == "adv" }
 	feederDone := make(chan struct{})
 	var fed atomic.Int64
 	go func() { // gocbcore's read loop: blocks inside the gate
@@ -302,9 +317,15 @@ func c07ExecGate(sc c07Gate) (string, map[string]bool) {
 	final := maxIssued.Load()
 	// every event covered by the final threshold must come through (no lost wake-up): bound = 400 x the 1 ms poll
 	wantDelivered := 0
-	for _, s := range sc.Events {
-		if s <= final {
+	for i, s := range sc.Events {
+		if s <= final && forwarded(i) {
 			wantDelivered++
+		}
+	}
+	nForwarded := 0
+	for i := range sc.Events {
+		if forwarded(i) {
+			nForwarded++
 		}
 	}
 	if !closed {
@@ -321,7 +342,7 @@ func c07ExecGate(sc c07Gate) (string, map[string]bool) {
 			}
 			time.Sleep(200 * time.Microsecond)
 		}
-		if wantDelivered < len(sc.Events) {
+		if wantDelivered < nForwarded {
 			labels["events_left_waiting"] = true
 			time.Sleep(3 * time.Millisecond) // a wrong gate would let the next one through now
 		}
@@ -372,6 +393,9 @@ func TestC07_Gate(t *testing.T) {
 		sc.GapUs = rapid.SliceOfN(rapid.SampledFrom([]int{0, 0, 50, 300, 1500}), 1, 4).Draw(rt, "gaps")
 		if rapid.IntRange(0, 3).Draw(rt, "closes") == 3 && len(sc.Reports) > 0 {
 			sc.CloseAt = rapid.IntRange(0, len(sc.Reports)-1).Draw(rt, "closeat")
+		}
+		if n > 0 && rapid.IntRange(0, 2).Draw(rt, "catchup") == 0 {
+			sc.Catchup = rapid.Uint64Range(1, seq).Draw(rt, "catchupat")
 		}
 		if rapid.Bool().Draw(rt, "mixedkinds") {
 			sc.Kinds = rapid.SliceOfN(rapid.SampledFrom([]string{"mut", "mut", "del", "exp", "adv", "adv", "cc", "cd", "cf", "sc", "sd", "cm"}), 1, 8).Draw(rt, "kinds")
